@@ -26,10 +26,12 @@
 package vsched
 
 import (
+	"cmp"
 	"fmt"
 	"reflect"
 	"runtime"
 	"runtime/debug"
+	"slices"
 	"sort"
 	"strconv"
 	"sync"
@@ -253,6 +255,30 @@ func conv(v interface{}, t reflect.Type) reflect.Value {
 	return rv
 }
 
+// blockingSelect blocks in reflect.Select. A blocked sender woken by close()
+// panics; it must re-park first like every other woken goroutine, so that
+// several goroutines woken by one close() run on one at a time, in id order.
+func (g *G) blockingSelect(cs []reflect.SelectCase) (int, reflect.Value, bool) {
+	defer func() {
+		if r := recover(); r != nil {
+			g.woke()
+			panic(r)
+		}
+	}()
+	return reflect.Select(cs)
+}
+
+// SortedKeys is what the instrumenter turns `range m` over a map into, so that
+// Go's randomised iteration order never decides the order of events.
+func SortedKeys[K cmp.Ordered, V any](m map[K]V) []K {
+	ks := make([]K, 0, len(m))
+	for k := range m {
+		ks = append(ks, k)
+	}
+	slices.Sort(ks)
+	return ks
+}
+
 // Send is `ch <- v`.
 func Send(ch interface{}, v interface{}) {
 	rc := reflect.ValueOf(ch)
@@ -271,7 +297,7 @@ func Send(ch interface{}, v interface{}) {
 		return
 	}
 	g.block("send", false)
-	chosen, _, _ := reflect.Select([]reflect.SelectCase{
+	chosen, _, _ := g.blockingSelect([]reflect.SelectCase{
 		{Dir: reflect.SelectSend, Chan: rc, Send: val},
 		{Dir: reflect.SelectRecv, Chan: reflect.ValueOf(g.s.abort)},
 	})
@@ -336,8 +362,10 @@ func RecvCase[T any](s *Sel, ch <-chan T) *RC[T] {
 	s.cases = append(s.cases, reflect.SelectCase{Dir: reflect.SelectRecv, Chan: reflect.ValueOf(ch)})
 	s.fill = append(s.fill, func(v reflect.Value, ok bool) {
 		rc.Ok = ok
-		if v.IsValid() {
-			rc.V = v.Interface().(T)
+		if v.IsValid() && v.CanInterface() {
+			if x, isT := v.Interface().(T); isT { // a nil interface value stays the zero T
+				rc.V = x
+			}
 		}
 	})
 	return rc
@@ -402,7 +430,7 @@ func (s *Sel) Do() int {
 	g.block("select", false)
 	cs := append(append([]reflect.SelectCase{}, s.cases...),
 		reflect.SelectCase{Dir: reflect.SelectRecv, Chan: reflect.ValueOf(g.s.abort)})
-	k, v, ok := reflect.Select(cs)
+	k, v, ok := g.blockingSelect(cs)
 	if k == n {
 		g.doExit()
 		return -1
